@@ -25,6 +25,14 @@ def parseShape : List String → Option (Shape Rat × List String)
       return ({ rat := rat == "1", degs := [pu, pv, pw], kvs := [Uu, Uv, Uw], sizes := [su, sv, sw], net := P }, rest)
   | _ => none
 
+/-- `n` shapes one after the other -/
+def parseShapes : Nat → List String → Option (List (Shape Rat) × List String)
+  | 0, toks => some ([], toks)
+  | n+1, toks => do
+      let (S, rest) ← parseShape toks
+      let (Ss, rest) ← parseShapes n rest
+      return (S :: Ss, rest)
+
 def shapeOk (S : Shape Rat) : Bool :=
   (List.range S.pdim).all (fun d =>
     decide (1 ≤ S.deg d) && decide (S.deg d + 1 ≤ S.size d) && decide ((S.kv d).length = S.size d + S.deg d + 1)
@@ -151,6 +159,37 @@ def handleShape (toks : List String) : Option String :=
           let axis ← axis.toNat?; let c ← parseRat c; let sn ← parseRat sn
           if axis > 2 then return "ERR"
           return showShape (rotate S axis c sn)
+      | _ => none
+  -- containers: `xformc <n> <n shapes, each with its kind tag> <T vec | S m | R axis c s>`; answer: the elements joined by ` # `
+  -- (`EMPTY` for an empty container).  ERR: an element that is not a valid shape, elements of different parametric / spatial
+  -- dimension (the container refuses them), and the exceptions of the operations (see `translateAll`, `rotateAll`)
+  | "xformc" :: n :: rest => do
+      let n ← n.toNat?
+      let (Ss, rest) ← parseShapes n rest
+      if !(Ss.all shapeOk) then return "ERR"
+      let dimS (S : Shape Rat) := if S.rat then (dimOf S.net) - 1 else dimOf S.net
+      match Ss with
+      | S0 :: tl => if !(tl.all (fun S => S.pdim == S0.pdim && dimS S == dimS S0)) then return "ERR"
+      | [] => pure ()
+      let showAll (l : List (Shape Rat)) := if l.isEmpty then "EMPTY" else " # ".intercalate (l.map showShape)
+      match rest with
+      | ["T", vs] =>
+          let vec ← parseList vs
+          match Ss with
+          | S0 :: _ => if vec.length != dimS S0 then return "ERR"
+          | [] => pure ()
+          match translateAll Ss vec with
+          | some r => return showAll r
+          | none => return "ERR"
+      | ["S", m] =>
+          let m ← parseRat m
+          return showAll (scaleAll Ss m)
+      | ["R", axis, c, sn] =>
+          let axis ← axis.toNat?; let c ← parseRat c; let sn ← parseRat sn
+          if axis > 2 then return "ERR"
+          match rotateAll Ss axis c sn with
+          | some r => return showAll r
+          | none => return "ERR"
       | _ => none
   | ["refh", p, us, ps, kl, add, dens] => do
       let p ← p.toNat?; let U ← parseList us; let P ← parsePts ps; let add ← parseList add; let dens ← dens.toNat?
